@@ -97,6 +97,16 @@ def op_keys(op):
 REMOVERS = ('delitem', 'ipop', 'pop', 'popitem', 'delete', 'clear', 'dpop', 'dpopleft')
 
 
+def _flat_names(op):
+    """Operation names of an op, blocks flattened to any depth."""
+    if op.get('op') != 'txn':
+        return [op.get('op')]
+    out = []
+    for sub in op['body']:
+        out.extend(_flat_names(sub))
+    return out
+
+
 def expand_setdefault(ops):
     """Index.setdefault is documented (and anchored) as a get/add loop: model
     a top-level call as atomic insert attempts (result immaterial; one per
@@ -111,9 +121,7 @@ def expand_setdefault(ops):
         for b in ops:
             if b is h or b['task'] == h['task']:
                 continue
-            names = [b['op'].get('op')]
-            if names[0] == 'txn':
-                names = [s.get('op') for s in b['op']['body']]
+            names = _flat_names(b['op'])
             if not any(n in REMOVERS for n in names):
                 continue
             bret = INF if b.get('ret') is None else b['ret']
